@@ -110,8 +110,6 @@ Section Optim.
 
     Definition half : T := ofQ O (1 # 2)%Q.
     Definition third : T := c1 / ofZ O 3.
-    Definition mdiag (m : matrix (T:=T)) : list T :=
-      let n := Nat.min (nr m) (nc m) in map (fun i => nth (i * n + i)%nat (dat m) c0) (seq 0 n).
     (** [jtr.inf_norm()] of the 1 x p matrix: the single row's sum of absolute values *)
     Definition inf_norm_row (v : list T) : T := vmax [sum O (map (abs O) v)].
     (** [for i in 0..p { damped[[i,i]] += mu * jtj[[i,i]] }] *)
@@ -133,7 +131,7 @@ Section Optim.
       let* J := jac0 ps in
       let* (jtj, jtr) := normal_eqs J (length ps) r in
       Some {| lm_ps := ps; lm_res := r; lm_jtj := jtj; lm_jtr := jtr;
-              lm_mu := l_tau h * vmax (mdiag jtj); lm_nu := two O;
+              lm_mu := l_tau h; lm_nu := two O;
               lm_stop := leb O (inf_norm_row jtr) (l_eps1 h) |}.
 
     Definition lm_step (st : lm_state) : option lm_state :=
